@@ -190,10 +190,17 @@ func (r *Run) Gate(fn *ssa.Function, key string, base Sigma, within *Reach, atom
 	for _, b := range strings.Split(bad, ",") {
 		s, bound, err := r.bindSets(fn, base, within, AtomSet{atom, b})
 		if err != nil {
+			// the value is not tested by a branch condition of its own: it may be merged with the
+			// errors of the neighbouring steps and tested once ("convert, verify, one error exit")
+			if s2, bound2 := r.bindMerged(fn, base, within, atom, b); len(bound2) > 0 {
+				s, bound, err = s2, bound2, nil
+			}
+		}
+		if err != nil {
 			return r.Check(key, false, r.FnPos(fn), "undecided: "+err.Error()+" on this path (the check for '"+what+"' is missing)")
 		}
 		boundAll = bound
-		reach := r.D.Walk(fn, s, nil, nil)
+		reach := r.walkR(fn, s, nil, -1)
 		r.Valuations++
 		if ret := anyReach(reach, accept); ret != nil {
 			ok = false
@@ -693,4 +700,231 @@ func nonNilAt(v ssa.Value, at *ssa.BasicBlock) bool {
 		}
 	}
 	return false
+}
+
+// ---- nil status of a value on the edge it travels over ------------------------------------
+
+// nilCmpOf: the branch condition c is `v == nil` / `v != nil` (under any number of negations) for
+// some v; eq tells whether the condition is true exactly when v is nil.
+func nilCmpOf(c ssa.Value) (v ssa.Value, eq bool, ok bool) {
+	neg := false
+	for {
+		u, isNot := c.(*ssa.UnOp)
+		if !isNot || u.Op != token.NOT {
+			break
+		}
+		c, neg = u.X, !neg
+	}
+	bo, isBin := c.(*ssa.BinOp)
+	if !isBin || (bo.Op != token.EQL && bo.Op != token.NEQ) {
+		return nil, false, false
+	}
+	switch {
+	case isNilConst(bo.Y) && !isNilConst(bo.X):
+		v = bo.X
+	case isNilConst(bo.X) && !isNilConst(bo.Y):
+		v = bo.Y
+	default:
+		return nil, false, false
+	}
+	return v, (bo.Op == token.EQL) != neg, true
+}
+
+// nilFactAt: what a dominating test of this very SSA value says about it whenever block `at`
+// executes — "nil", "non" or "" (nothing known). `at` is dominated by one outcome edge of a branch on
+// `v == nil` / `v != nil`; the test block dominates `at` and is dominated by v's definition, so the
+// instance of v tested last is the one `at` sees.
+func nilFactAt(v ssa.Value, at *ssa.BasicBlock) string {
+	if at == nil {
+		return ""
+	}
+	for _, b := range at.Parent().Blocks {
+		if len(b.Instrs) == 0 || len(b.Succs) != 2 || b.Succs[0] == b.Succs[1] {
+			continue
+		}
+		ifi, ok := b.Instrs[len(b.Instrs)-1].(*ssa.If)
+		if !ok {
+			continue
+		}
+		x, eq, ok := nilCmpOf(ifi.Cond)
+		if !ok || x != v {
+			continue
+		}
+		for k := 0; k < 2; k++ {
+			if edgeDominates(b, k, at) {
+				if (k == 0) == eq {
+					return "nil"
+				}
+				return "non"
+			}
+		}
+	}
+	return ""
+}
+
+// nilOnEdge decides whether the value e is nil when control passes over the CFG edge P→B (e is what
+// a φ of B receives over that edge): "nil", "non" or "" (unknown). Sources of knowledge, each valid
+// for every dynamic instance of the edge: e is the nil constant / non-nil by construction; the
+// valuation fixes nil?e; P ends in a nil test of e and B is one of its outcomes; a nil test of e
+// dominates P; e is itself a φ and every value it can receive has the same known status on its edge.
+func (r *Run) nilOnEdge(e ssa.Value, P, B *ssa.BasicBlock, s Sigma, depth int) string {
+	if depth > 6 {
+		return ""
+	}
+	if isNilConst(e) {
+		return "nil"
+	}
+	if val, ok := s["nil?"+r.D.D(e)]; ok && (val == "nil" || val == "non") {
+		return val
+	}
+	if _, isPhi := e.(*ssa.Phi); !isPhi && neverNil(e) {
+		return "non"
+	}
+	if P != nil && B != nil && len(P.Instrs) > 0 && len(P.Succs) == 2 && P.Succs[0] != P.Succs[1] {
+		if ifi, ok := P.Instrs[len(P.Instrs)-1].(*ssa.If); ok {
+			if x, eq, ok := nilCmpOf(ifi.Cond); ok && x == e {
+				if (P.Succs[0] == B) == eq {
+					return "nil"
+				}
+				return "non"
+			}
+		}
+	}
+	if f := nilFactAt(e, P); f != "" {
+		return f
+	}
+	if ph, ok := e.(*ssa.Phi); ok && len(ph.Edges) > 0 {
+		res := ""
+		for i, x := range ph.Edges {
+			n := r.nilOnEdge(x, ph.Block().Preds[i], ph.Block(), s, depth+1)
+			if n == "" || (i > 0 && n != res) {
+				return ""
+			}
+			res = n
+		}
+		return res
+	}
+	return ""
+}
+
+// evalR evaluates a branch condition like Describer.Eval, but decides a nil test of a merged value
+// by the status of the value that arrives over the edge taken (nilOnEdge: through nested φ-nodes and
+// through tests that dominate the edge), and a repeated nil test by the outcome of the first one.
+func (r *Run) evalR(cond ssa.Value, s Sigma, blk *ssa.BasicBlock, pred int) Tri {
+	if x, eq, ok := nilCmpOf(cond); ok {
+		if _, fixed := s["nil?"+r.D.D(x)]; !fixed {
+			n := ""
+			if ph, isPhi := x.(*ssa.Phi); isPhi && ph.Block() == blk {
+				if pred >= 0 && pred < len(ph.Edges) {
+					n = r.nilOnEdge(ph.Edges[pred], blk.Preds[pred], blk, s, 0)
+				}
+			} else {
+				n = nilFactAt(x, blk)
+				if _, isPhi := x.(*ssa.Phi); n == "" && isPhi {
+					n = r.nilOnEdge(x, nil, nil, s, 0)
+				}
+			}
+			if n != "" {
+				if (n == "nil") == eq {
+					return T
+				}
+				return F
+			}
+		}
+	}
+	return r.D.Eval(cond, s, blk, pred)
+}
+
+// walkR is Describer.Walk with evalR deciding the branch conditions: the blocks and edges that may
+// execute under σ from block `from` (nil = entry), entered over its predecessor edge fromPred (-1 =
+// unknown).
+func (r *Run) walkR(fn *ssa.Function, s Sigma, from *ssa.BasicBlock, fromPred int) *Reach {
+	type st struct {
+		b    *ssa.BasicBlock
+		pred int
+	}
+	if from == nil {
+		from = fn.Blocks[0]
+	}
+	seen := map[st]bool{}
+	out := &Reach{Blocks: map[*ssa.BasicBlock]bool{}, Edges: map[[2]int]bool{}}
+	work := []st{{from, fromPred}}
+	for len(work) > 0 {
+		c := work[len(work)-1]
+		work = work[:len(work)-1]
+		if seen[c] {
+			continue
+		}
+		seen[c] = true
+		out.Blocks[c.b] = true
+		succs := c.b.Succs
+		if len(c.b.Instrs) > 0 {
+			if ifi, ok := c.b.Instrs[len(c.b.Instrs)-1].(*ssa.If); ok && len(c.b.Succs) == 2 {
+				switch r.evalR(ifi.Cond, s, c.b, c.pred) {
+				case T:
+					succs = c.b.Succs[:1]
+				case F:
+					succs = c.b.Succs[1:2]
+				}
+			}
+		}
+		for _, sb := range succs {
+			pi := -1
+			for i, p := range sb.Preds {
+				if p == c.b {
+					pi = i
+					break
+				}
+			}
+			out.Edges[[2]int{c.b.Index, sb.Index}] = true
+			work = append(work, st{sb, pi})
+		}
+	}
+	return out
+}
+
+// bindMerged resolves a nil atom that no branch condition tests on its own: the values matching it
+// that are merged (φ) into a value some branch condition of fn (inside `within`) compares with nil.
+// The valuation returned fixes the nil status of those values; evalR then decides the merged test on
+// the edges over which they arrive.
+func (r *Run) bindMerged(fn *ssa.Function, base Sigma, within *Reach, atom RuleAtom, val string) (Sigma, []string) {
+	if !strings.HasPrefix(atom.Pat, "nil?") || (val != "nil" && val != "non") {
+		return nil, nil
+	}
+	s := Sigma{}
+	for k, v := range base {
+		s[k] = v
+	}
+	var bound []string
+	for _, b := range fn.Blocks {
+		if (within != nil && !within.Blocks[b]) || len(b.Instrs) == 0 {
+			continue
+		}
+		ifi, ok := b.Instrs[len(b.Instrs)-1].(*ssa.If)
+		if !ok {
+			continue
+		}
+		// the condition itself may be a φ of comparisons (short-circuit forms)
+		for _, c := range phiLeaves(ifi.Cond) {
+			x, _, ok := nilCmpOf(c)
+			if !ok {
+				continue
+			}
+			if _, isPhi := x.(*ssa.Phi); !isPhi {
+				continue
+			}
+			for _, leaf := range phiLeaves(x) {
+				k := "nil?" + r.D.D(leaf)
+				if isNilConst(leaf) || !glob(atom.Pat, k) {
+					continue
+				}
+				if _, dup := s[k]; !dup {
+					bound = append(bound, k)
+				}
+				s[k] = val
+			}
+		}
+	}
+	sort.Strings(bound)
+	return s, bound
 }
